@@ -35,14 +35,16 @@
       ([C06_selection_uncached], [C06_selection_cached]; completeness needs every non-empty table
       to be listed by its archetype, stated as hypothesis [tables_listed]).
       The hypothesis "get_batch_tables succeeds" cannot be replaced by "the filter exists":
-      [C06_filter_exists_is_not_enough] (an archetype left without table by a rejected creation makes
-      the selection itself fail).
+      [C06_filter_exists_is_not_enough] (an archetype without table makes the selection itself fail;
+      [St] admits such states. Before the repair of createArchetype they were reachable, left behind by
+      a creation rejected between createArchetype and createTable; since the repair every reachable
+      state has "every archetype has its table": [archs_tabled_norel], StorageD [Inv4]).
     Not covered by theorems (tied by the `batch` correspondence stream, op codes 12, 30, 31, 32
     with and without callbacks, with independent oracle [proj_batch]): SetRelationsBatch, batch
     operations with observers registered for the consulted events (ordering of callbacks: C09),
     and batch operations in worlds with relation components. *)
 From Ark Require Import Model.Base Model.Mask Model.Pool Model.Util Model.World Model.Run.
-From Ark Require Import Proofs.WF Proofs.StorageA Proofs.StorageBDefs Proofs.StorageB_sb2 Proofs.ViewProofs Proofs.CacheProofs Proofs.BatchProofs Proofs.BatchOps Properties.Common.
+From Ark Require Import Proofs.WF Proofs.StorageA Proofs.StorageBDefs Proofs.StorageB_sb2 Proofs.ViewProofs Proofs.CacheProofs Proofs.BatchProofs Proofs.BatchOps Proofs.StorageD Properties.Common.
 
 Theorem C06_table_move_is_per_entity_exchange : forall s otid ntid ot nt oa na, St s -> otid <> ntid ->
   nth_error (w_tables s) otid = Some ot -> nth_error (w_tables s) ntid = Some nt ->
@@ -200,7 +202,13 @@ Example C06_example :
   [(true, None, Some 7%Z, Some 0%Z); (true, None, Some 7%Z, Some 0%Z); (true, None, Some 7%Z, Some 0%Z); (true, None, None, None)].
 Proof. vm_compute. reflexivity. Qed.
 
-Definition C06_all := (C06_table_move_is_per_entity_exchange, C06_destination_mask, C06_single_exchange,
+(** Over histories (StorageD.v): in every state reachable by the core operations, queries and
+    filter creation, the tables selected for an unregistered filter are EXACTLY the tables of the
+    entities matching it - the hypotheses [tables_listed] / "every archetype has its table" of the
+    selection theorems above are invariants. *)
+Definition C06_selection_exact_after_every_history := reachable_batch_selection_exact.
+
+Definition C06_all := (C06_selection_exact_after_every_history, C06_table_move_is_per_entity_exchange, C06_destination_mask, C06_single_exchange,
   C06_batch_creation, C06_new_entities, C06_new_entities_needs_a_lock_bit,
   C06_exchange_batch, C06_remove_entities, C06_new_batch, C06_selection_uncached, C06_selection_cached,
   C06_filter_exists_is_not_enough, C06_whole_ops_nonvacuous).
